@@ -164,7 +164,13 @@ func runParse(filename string, text []byte) (dbccase.Outcome, stageResult) {
 	case "ok":
 		return o, stageResult{class: clsOK}
 	case "syn", "other":
-		return o, classifyErr(filename, text, o.Err, true)
+		res := classifyErr(filename, text, o.Err, true)
+		if res.class == clsSyn {
+			if bad, isBad := sameUnderEveryName(text, false, filename, o); isBad {
+				return o, bad
+			}
+		}
+		return o, res
 	}
 	res := parseWithStack(filename, text, false)
 	if res.class != clsPanic { // not reproduced: keep the text ParseSafe recorded
@@ -184,6 +190,11 @@ func runParseHex(filename string, text []byte) stageResult {
 		return stageResult{class: clsOK}
 	case "syn", "other":
 		res = classifyErr(filename, text, o.Err, true)
+		if res.class == clsSyn {
+			if bad, isBad := sameUnderEveryName(text, true, filename, o); isBad {
+				res = bad
+			}
+		}
 	default:
 		res = parseWithStack(filename, text, true)
 		if res.class != clsPanic {
@@ -208,7 +219,13 @@ func runImport(filename string, text []byte) (res stageResult) {
 	if err == nil {
 		return stageResult{class: clsOK}
 	}
-	return classifyErr(filename, text, err, false)
+	res = classifyErr(filename, text, err, false)
+	if res.class == clsOther || res.class == clsSyn {
+		if bad, isBad := importNamesFile(text, filename, err); isBad {
+			return bad
+		}
+	}
+	return res
 }
 
 // emitRecord writes the record of one input; a panic inside EmitCase (scanner hook, projection,
